@@ -186,3 +186,59 @@ Proof.
       * intros E%elem_of_list_singleton. apply (Hx b); [set_solver|done].
     + rewrite (connect_done_dom _ _ _ _ H). done.
 Qed.
+
+(* ---------- the connection fold of add_subcircuit for a map {io: tgt io}: child inputs are driven by tgt io,
+   child outputs drive tgt io ---------- *)
+Lemma conn_fold_mixed_done SC name (l : list string) (tgt : string → string) : ∀ g g',
+  (∀ a b, a ∈ l → b ∈ l → tgt a = tgt b → a = b) →
+  (∀ a b, a ∈ l → b ∈ l → tgt a ≠ pre name b) →
+  foldl (conn_step SC name) (g, Done) ((λ n, (n, [tgt n])) <$> l) = (g', Done) →
+  (∀ a, a ∈ l → a ∈ inputs (c_g SC) → g' !! pre name a = upd_fi (λ s, s ∪ {[tgt a]}) <$> g !! pre name a) ∧
+  (∀ a, a ∈ l → a ∉ inputs (c_g SC) → g' !! tgt a = upd_fi (λ s, s ∪ {[pre name a]}) <$> g !! tgt a) ∧
+  (∀ x, (∀ a, a ∈ l → a ∈ inputs (c_g SC) → x ≠ pre name a) → (∀ a, a ∈ l → a ∉ inputs (c_g SC) → x ≠ tgt a) → g' !! x = g !! x).
+Proof.
+  induction l as [|b l IH] using rev_ind; intros g g' Hinj Hdis H.
+  - simpl in H. injection H as <-. split; [set_solver|]. split; [set_solver|done].
+  - rewrite fmap_app, foldl_app in H. simpl in H.
+    destruct (foldl (conn_step SC name) (g, Done) ((λ n, (n, [tgt n])) <$> l)) as [g1 o1] eqn:E1.
+    destruct o1 as [|e]; [|simpl in H; done]. simpl in H.
+    destruct (IH g g1) as (IH1 & IH2 & IH3); [intros a a' Ha Ha'; apply Hinj; set_solver|intros a a' Ha Ha'; apply Hdis; set_solver|done|].
+    clear IH.
+    assert (Hbl : b ∈ (l ++ [b])%list) by set_solver.
+    (* the lookup of an arbitrary node after the last connection *)
+    assert (Hlast : ∀ x, g' !! x = upd_fi (λ s, s ∪ (if bool_decide (b ∈ inputs (c_g SC))
+                                                      then (if decide (x = pre name b) then {[tgt b]} else ∅)
+                                                      else (if decide (x = tgt b) then {[pre name b]} else ∅))) <$> g1 !! x).
+    { intros x. case_bool_decide.
+      - rewrite (connect_done_lookup _ _ _ _ x H). destruct (g1 !! x) as [i|]; simpl; [|done]. f_equal. unfold upd_fi. f_equal.
+        destruct (decide (x = pre name b)) as [->|]; [rewrite decide_True by set_solver|rewrite decide_False by set_solver]; set_solver.
+      - rewrite (connect_done_lookup _ _ _ _ x H). destruct (g1 !! x) as [i|]; simpl; [|done]. f_equal. unfold upd_fi. f_equal.
+        destruct (decide (x = tgt b)) as [->|]; [rewrite decide_True by set_solver|rewrite decide_False by set_solver]; set_solver. }
+    assert (Hid : ∀ x, g1 !! x = upd_fi (λ s, s ∪ ∅) <$> g1 !! x).
+    { intros x. destruct (g1 !! x) as [i|]; simpl; [|done]. f_equal. symmetry. apply upd_fi_id. set_solver. }
+    split; [|split].
+    + intros a Ha Hai. rewrite Hlast. destruct (decide (a = b)) as [->|Hne].
+      * rewrite bool_decide_eq_true_2, decide_True by done. destruct (decide (b ∈ l)) as [Hb|Hb].
+        -- rewrite IH1 by done. destruct (g !! pre name b) as [i|]; simpl; [|done]. f_equal. unfold upd_fi. simpl. f_equal. set_solver.
+        -- rewrite IH3; [done| |].
+           ++ intros a' Ha' _ E. apply (inj (pre name)) in E. by subst.
+           ++ intros a' Ha' _ E. symmetry in E. apply Hdis in E; [done|set_solver..].
+      * assert (Hal : a ∈ l) by set_solver.
+        assert (pre name a ≠ pre name b) by (intros E%(inj (pre name)); done).
+        assert (pre name a ≠ tgt b) by (intros E; symmetry in E; apply Hdis in E; [done|set_solver..]).
+        case_bool_decide; rewrite decide_False by done; rewrite <- Hid; by apply IH1.
+    + intros a Ha Hai. rewrite Hlast. destruct (decide (a = b)) as [->|Hne].
+      * rewrite bool_decide_eq_false_2, decide_True by done. destruct (decide (b ∈ l)) as [Hb|Hb].
+        -- rewrite IH2 by done. destruct (g !! tgt b) as [i|]; simpl; [|done]. f_equal. unfold upd_fi. simpl. f_equal. set_solver.
+        -- rewrite IH3; [done| |].
+           ++ intros a' Ha' _ E. apply Hdis in E; [done|set_solver..].
+           ++ intros a' Ha' _ E. apply Hinj in E; [by subst|set_solver..].
+      * assert (Hal : a ∈ l) by set_solver.
+        assert (tgt a ≠ tgt b) by (intros E; apply Hinj in E; [done|set_solver..]).
+        assert (tgt a ≠ pre name b) by (apply Hdis; set_solver).
+        case_bool_decide; rewrite decide_False by done; rewrite <- Hid; by apply IH2.
+    + intros x Hx1 Hx2. rewrite Hlast.
+      assert (g1 !! x = g !! x) as <-.
+      { apply IH3; [intros a Ha; apply Hx1; set_solver|intros a Ha; apply Hx2; set_solver]. }
+      case_bool_decide as Hbi; [rewrite decide_False by (apply Hx1; done)|rewrite decide_False by (apply Hx2; done)]; by rewrite <- Hid.
+Qed.
